@@ -29,11 +29,12 @@ def _f32(env, v):
     return float(np.float32(v))
 
 
-def h_roundtrip(env, n=1, order=None, via="motl", holes=(), index="default"):
+def h_roundtrip(env, n=1, order=None, via="motl", holes=(), index="default", wide=False):
     cm = env.module("cryomotl")
     order = list(order) if order is not None else list(range(20))
     cols = [COLS[k] for k in order]
-    vals = [{c: env.real("v%d_%s" % (i, c), -1e6, 1e6) for c in COLS} for i in range(n)]
+    big = ("subtomo_id", "tomo_id", "object_id")         # identifiers may be large (beyond 2**24, where float32 stops being exact)
+    vals = [{c: (env.real("v%d_%s" % (i, c), -1e9, 1e9) if (wide and c in big) else env.real("v%d_%s" % (i, c), -1e6, 1e6)) for c in COLS} for i in range(n)]
     rows = [dict(v) for v in vals]
     for (i, c) in holes:
         if i < n:
@@ -143,6 +144,11 @@ def jobs(tier, seed):
     # N equal to / next to the number of fields (a square table is the only shape a transposition leaves well-formed)
     j.append(("h_roundtrip", {"n": 20, "order": list(range(5, 20)) + list(range(5)), "via": "motl", "holes": [[19, 0]]}))
     j.append(("h_roundtrip", {"n": 21, "order": list(range(20)), "via": "emmotl", "holes": [], "index": "gaps"}))
+    # a particle with EVERY field missing (comes back as an all-zero row), and identifiers beyond 2**24
+    j.append(("h_roundtrip", {"n": 3, "order": list(range(20)), "via": "emmotl", "holes": [[1, c] for c in range(20)]}))
+    j.append(("h_roundtrip", {"n": 2, "order": list(reversed(range(20))), "via": "motl", "holes": [[0, c] for c in range(20)], "index": "gaps"}))
+    j.append(("h_roundtrip", {"n": 1, "order": list(range(20)), "via": "emmotl", "wide": True}))
+    j.append(("h_roundtrip", {"n": 2, "order": list(range(3, 20)) + [0, 1, 2], "via": "motl", "wide": True}))
     j.append(("h_sequence", {"n1": 2, "n2": 3, "via": "emmotl"}))
     j.append(("h_sequence", {"n1": 3, "n2": 1, "via": "motl", "shrink": False}))
     return j
